@@ -102,6 +102,25 @@ def run_case(case, res):
            "start": s, "end": e, "box": kind}
     res.sample = {"config": cfg}
     grid = make_grid(family, a, b, p)
+    # the strategies reuse ONE grid object for all sub-boxes: the observed call is preceded by a history of other boxes/levels
+    nprev = rng.choice([0, 0, 1, 2, 3])
+    for _ in range(nprev):
+        ps, pe = subbox(rng, a, b)
+        if rng.random() < 0.4:   # boxes glued to the lower / upper global boundary
+            for k in range(d):
+                wdt = pe[k] - ps[k]
+                if rng.random() < 0.5:
+                    ps[k], pe[k] = a[k], a[k] + wdt
+                elif rng.random() < 0.3:
+                    ps[k], pe[k] = b[k] - wdt, b[k]
+        plv = [rng.randint(0 if family != "TrapezoidalNB" else 1, min(3, maxl)) for _ in range(d)]
+        try:
+            grid.setCurrentArea(np.array(ps), np.array(pe), plv)
+            grid.get_points_and_weights()
+        except Exception:
+            pass   # a failing history step is judged when it is the observed call of another case
+        res.count("history_steps")
+    cfg["history"] = nprev
     grid.setCurrentArea(np.array(s), np.array(e), lv)
     pts, w = grid.get_points_and_weights()
     pts = [tuple(float(x) for x in q) for q in pts]
